@@ -330,3 +330,44 @@ M("C03", "gate-options-add-loop-proper-superset", F, "", "", "C03.R5", edits=[
     (F, _GATE_COMP, _GATE_ADD_LOOP),
     (F, "    if options.issuperset(core):\n", "    if options > core:\n"),
 ])
+
+# ------------------------------------------------------------------------------------------------ R12: fixed-size setting values
+# (the term stored in the mapping for a TYPE_SHORT / TYPE_INT record is dec(bytes, big, unsigned) over all of the bytes
+# whatever spells the decode: u16be / u32be, int.from_bytes, struct.unpack, a precompiled struct.Struct from a table keyed
+# by the record type, a table of functions; a signed / little-endian / partial decode, or a converted TYPE_PTR value: not)
+_SM_CONV = (
+    "                if setting.type == SettingsType.TYPE_SHORT:\n                    val = u16be(val)\n"
+    "                elif setting.type == SettingsType.TYPE_INT:\n                    val = u32be(val)\n"
+)
+
+
+def _sm_struct_table(short=">H", int_=">I", where="local"):
+    table = "{SettingsType.TYPE_SHORT: struct.Struct(\"" + short + "\"), SettingsType.TYPE_INT: struct.Struct(\"" + int_ + "\")}"
+    use = (
+        "                unpacker = " + ("_VALUE_STRUCTS" if where == "module" else table) + ".get(setting.type)\n"
+        "                if unpacker is not None:\n                    val = unpacker.unpack(val)[0]\n"
+    )
+    edits = [_IMPORT_STRUCT, (F, _SM_CONV, use)]
+    if where == "module":
+        edits.append((F, "class BeaconConfig:\n", "_VALUE_STRUCTS = " + table + "\n\n\nclass BeaconConfig:\n"))
+    return edits
+
+
+T("C03", "twin-settings-map-struct-table", F, "", "", edits=_sm_struct_table())
+T("C03", "twin-settings-map-module-struct-table", F, "", "", edits=_sm_struct_table(short="!H", int_=">L", where="module"))
+T("C03", "twin-settings-map-from-bytes", F, _SM_CONV,
+  "                if setting.type in (SettingsType.TYPE_SHORT, SettingsType.TYPE_INT):\n                    val = int.from_bytes(val, \"big\")\n")
+T("C03", "twin-settings-map-struct-unpack", F, "", "", edits=[_IMPORT_STRUCT, (F, "                    val = u32be(val)\n", "                    (val,) = struct.unpack(\">I\", val)\n")])
+T("C03", "twin-settings-map-function-table", F, _SM_CONV,
+  "                val = {SettingsType.TYPE_SHORT: u16be, SettingsType.TYPE_INT: u32be}.get(setting.type, lambda raw: raw)(val)\n")
+T("C03", "twin-settings-map-conditional-expression", F, _SM_CONV,
+  "                kind = setting.type\n                val = u16be(val) if kind == SettingsType.TYPE_SHORT else (u32be(val) if kind == SettingsType.TYPE_INT else val)\n")
+M("C03", "settings-map-short-signed-from-bytes", F, "                    val = u16be(val)\n", "                    val = int.from_bytes(val[:2], \"big\", signed=True)\n", "C03.R12")
+M("C03", "settings-map-int-little-endian-struct", F, "", "", "C03.R12", edits=[_IMPORT_STRUCT, (F, "                    val = u32be(val)\n", "                    val = struct.unpack(\"<I\", val)[0]\n")])
+M("C03", "settings-map-local-struct-table-signed-int", F, "", "", "C03.R12", edits=_sm_struct_table(int_=">l"))
+M("C03", "settings-map-int-half-width", F, "                    val = u32be(val)\n", "                    val = u16be(val)\n", "C03.R12")
+M("C03", "settings-map-function-table-native-order", F, _SM_CONV,
+  "                val = {SettingsType.TYPE_SHORT: u16, SettingsType.TYPE_INT: u32}.get(setting.type, lambda raw: raw)(val)\n", "C03.R12")
+M("C03", "settings-map-pointer-values-converted", F, "                elif setting.type == SettingsType.TYPE_INT:\n                    val = u32be(val)\n", "                else:\n                    val = u32be(val)\n", "C03.R12")
+M("C03", "settings-map-pretty-gets-signed", F, "            if pretty:\n                pretty_func = SETTING_TO_PRETTYFUNC.get(setting.index)\n",
+  "            if pretty:\n                if setting.type == SettingsType.TYPE_INT:\n                    val = int.from_bytes(setting.value, \"big\", signed=True)\n                pretty_func = SETTING_TO_PRETTYFUNC.get(setting.index)\n", "C03.R12")
